@@ -526,6 +526,10 @@ func c13Pipes(r *Run) {
 		"isPos":      func(n int) bool { return n > 0 },
 		"fails":      func(s string) (string, error) { return "", errBoom },
 		"ustr":       func(u uint) string { return fmt.Sprint("u", u) },
+		"fhalf":      func(f float64) float64 { return f / 2 },
+		"notb":       func(b bool) bool { return !b },
+		"u8":         func(u uint8) uint8 { return u + 1 },
+		"pick":       func(s string, f float64, b bool, n int) string { return fmt.Sprint(s, "/", f, "/", b, "/", n) },
 		"failsPtr":   func(s string) (string, *c13Err) { return "kept", &c13Err{"ptr boom"} },
 		"okPtr":      func(s string) (string, *c13Err) { return s + "!", nil },
 		"failsCoded": func(s string) (string, c13Coded) { return "kept", c13CodeErr{7} },
@@ -574,6 +578,49 @@ func c13Pipes(r *Run) {
 		}},
 		{`tag("p", "q")`, "tag", func(v any) (any, bool) { return fmt.Sprintf("%T:%v:p,q", v, v), true }},
 		{"tag", "tag", func(v any) (any, bool) { return fmt.Sprintf("%T:%v:", v, v), true }},
+		// arguments of every literal kind: single- and double-quoted strings, floats, booleans, integers
+		{"pick(1.5, true, 7)", "pick", func(v any) (any, bool) {
+			if sv, ok := asStr(v); ok {
+				return sv + "/1.5/true/7", true
+			}
+			return nil, false
+		}},
+		{`join2('single quoted')`, "join2", func(v any) (any, bool) {
+			if sv, ok := asStr(v); ok {
+				return sv + "+single quoted", true
+			}
+			return nil, false
+		}},
+		// conversions of the piped value to the parameter type: numeric strings to float / unsigned, "true" to bool
+		{"fhalf", "fhalf", func(v any) (any, bool) {
+			switch x := v.(type) {
+			case int:
+				return float64(x) / 2, true
+			case int8:
+				return float64(x) / 2, true
+			case float64:
+				return x / 2, true
+			case string:
+				var f float64
+				if _, err := fmt.Sscan(x, &f); err == nil && fmt.Sprint(f) == x {
+					return f / 2, true
+				}
+			}
+			return nil, false
+		}},
+		{"notb", "notb", func(v any) (any, bool) {
+			switch x := v.(type) {
+			case bool:
+				return !x, true
+			case string:
+				if x == "true" || x == "false" {
+					return x != "true", true
+				}
+			}
+			return nil, false
+		}},
+		// built-ins (themselves the reference)
+		{"type", "type", bi("type")}, {"int", "int", bi("int")}, {"escape", "escape", bi("escape")}, {"string", "string", bi("string")}, {"title", "title", bi("title")}, {"len", "len", bi("len")},
 		{"nosuch", "nosuch", func(v any) (any, bool) { return nil, false }},
 		{"failsPtr", "failsPtr", func(v any) (any, bool) { return nil, false }},
 		{"failsCoded", "failsCoded", func(v any) (any, bool) { return nil, false }},
@@ -635,7 +682,8 @@ func c13Pipes(r *Run) {
 				}
 				// literal text and an earlier expression stand before the pipe: when the pipe fails, what was already
 				// written for this text node must not show up in any later value
-				src := fmt.Sprintf(`<i data-m="1" title='T:{{ s }}:{{ %s }}'>P:{{ s }}={{ %s }}</i>`, strings.Join(parts, " | "), strings.Join(parts, " | "))
+				pipe := strings.Join(parts, " | ")
+				src := fmt.Sprintf(`<i data-m="1" title="T:{{ s }}:{{ %s }}">P:{{ s }}={{ %s }}</i>`, strings.ReplaceAll(pipe, `"`, "&quot;"), pipe)
 				out, err := c10RenderFuncs(src, env, funcs)
 				r.Eval("pipe:"+src, true, nil)
 				r.Count("stream:pipes(oracle only)")
@@ -670,6 +718,11 @@ func asInt(v any) (int, bool) {
 		return x, true
 	case int8:
 		return int(x), true
+	case float64: // Go's conversion: the fraction is dropped; a value outside the parameter's range is an error (checked by the caller)
+		if x != x || x < -1e18 || x > 1e18 {
+			return 0, false
+		}
+		return int(x), true
 	case string:
 		var i int
 		if _, err := fmt.Sscan(x, &i); err == nil && fmt.Sprint(i) == x {
@@ -682,7 +735,7 @@ func asStr(v any) (string, bool) {
 	switch x := v.(type) {
 	case string:
 		return x, true
-	case int, int8, bool:
+	case int, int8, bool, float64:
 		return fmt.Sprint(x), true
 	}
 	return "", false
